@@ -20,7 +20,7 @@ pub const LOOKUP_TYPES: [u16; 9] = [0xFF00, 0xFF01, 0x8022, 0x7F00, 0x0006, 0x00
 
 pub fn header_variants(ctx: &Ctx) -> Vec<(u8, u16, u128)> {
     let t = ((ctx.seeded(2) as u128) << 32 | 0x77) & ((1u128 << 96) - 1);
-    vec![(0, 1, t), (3, 0xFFF, 0), (1, 0x80, (1u128 << 96) - 1)]
+    vec![(0, 1, t), (3, 0xFFF, 0), (1, 0x80, (1u128 << 96) - 1), (2, 0x003, t.rotate_left(7) & ((1u128 << 96) - 1))]
 }
 
 pub fn run(ctx: &Ctx) -> Report {
@@ -214,8 +214,8 @@ pub fn run(ctx: &Ctx) -> Report {
     Report {
         acc,
         exhaustive: true,
-        rule: "all attribute skeletons over {OPT,SW x len 0/1/3/4, MI, MI256, FP ok, FP bad} to the stated depth x 3 header variants; on each: every cut point, header-length perturbation, excess variant, per-attribute length perturbation, top bits, every cookie bit, non-zero padding; on skeletons of <= 3 attributes (thorough 4) also every value of every type/length byte of the header and of each attribute header and every single-bit flip of buffers up to 64 bytes; plus every 16-bit attribute type (value length 0 and 5) at each position of 10 templates around MI / MI256 / FP; large messages (one big attribute + every tail of <= 2 sealing attributes, ending at every multiple of 4 in 65480..=65552 and around 256 / 4096 / 32768) and values that look like sealing-attribute headers, each with header-length perturbations and cuts; messages with two / three occurrences of each built-in type (valid, other valid, refused value, every order); typed lookups compared with the typed decoding of the first occurrence on every accepted message; distinct_nontrivial counts fault-free skeleton buffers".into(),
-        bounds: json!({"skeletons": n_sk, "full_alphabet_depth": n_full, "small_alphabet_depth": n_small, "header_variants": 3, "faults": "single"}),
+        rule: "all attribute skeletons over {OPT,SW x len 0/1/3/4, MI, MI256, FP ok, FP bad} to the stated depth x 4 header variants (one per class); on each: every cut point, header-length perturbation, excess variant, per-attribute length perturbation, top bits, every cookie bit, non-zero padding; on skeletons of <= 3 attributes (thorough 4) also every value of every type/length byte of the header and of each attribute header and every single-bit flip of buffers up to 64 bytes; plus every 16-bit attribute type (value length 0 and 5) at each position of 10 templates around MI / MI256 / FP; large messages (one big attribute + every tail of <= 2 sealing attributes, ending at every multiple of 4 in 65480..=65552 and around 256 / 4096 / 32768) and values that look like sealing-attribute headers, each with header-length perturbations and cuts; messages with two / three occurrences of each built-in type (valid, other valid, refused value, every order); typed lookups compared with the typed decoding of the first occurrence on every accepted message; distinct_nontrivial counts fault-free skeleton buffers".into(),
+        bounds: json!({"skeletons": n_sk, "full_alphabet_depth": n_full, "small_alphabet_depth": n_small, "header_variants": 4, "faults": "single"}),
         assumptions: vec!["buffers outside the grammar alphabets and with two or more independent faults are not explored".into()],
         ..Default::default()
     }
